@@ -309,7 +309,16 @@ def m_opt_as_mut(px, st, fr, ev):
 def closure_body(t):
     if is_agg(t) and t[1] in ("closure", "coroutine"):
         return t[2]
+    if isinstance(t, tuple) and t and t[0] == "fn":
+        return t[1]  # a fn item passed as a callable
     return None
+
+
+def call_args(f, args):
+    """argument list for expanding callable f: closures receive their environment first, fn items do not"""
+    if isinstance(f, tuple) and f and f[0] == "fn":
+        return list(args)
+    return [f] + list(args)
 
 
 def _wrap(f):
@@ -323,7 +332,7 @@ def m_opt_map(px, st, fr, ev):
     if body is None or body not in px.facts.bodies:
         return None
     a, b = split2(t, "Some", "None")
-    a.update({"inline": body, "args": [f, payload(t, "Some")], "wrap": some})
+    a.update({"inline": body, "args": call_args(f, [payload(t, "Some")]), "wrap": some})
     b["value"] = NONE
     return [a, b]
 
@@ -335,7 +344,7 @@ def m_opt_and_then(px, st, fr, ev):
     if body is None or body not in px.facts.bodies:
         return None
     a, b = split2(t, "Some", "None")
-    a.update({"inline": body, "args": [f, payload(t, "Some")]})
+    a.update({"inline": body, "args": call_args(f, [payload(t, "Some")])})
     b["value"] = NONE
     return [a, b]
 
@@ -347,7 +356,7 @@ def m_map_err(px, st, fr, ev):
     a, b = split2(t, "Ok", "Err")
     a["value"] = ok(payload(t, "Ok"))
     if body is not None and body in px.facts.bodies:
-        b.update({"inline": body, "args": [f, payload(t, "Err")], "wrap": err})
+        b.update({"inline": body, "args": call_args(f, [payload(t, "Err")]), "wrap": err})
     else:
         b["value"] = err(("mapped_err", f, payload(t, "Err")))
     return [a, b]
@@ -359,7 +368,7 @@ def m_res_map(px, st, fr, ev):
     body = closure_body(f)
     a, b = split2(t, "Ok", "Err")
     if body is not None and body in px.facts.bodies:
-        a.update({"inline": body, "args": [f, payload(t, "Ok")], "wrap": ok})
+        a.update({"inline": body, "args": call_args(f, [payload(t, "Ok")]), "wrap": ok})
     else:
         a["value"] = ok(("mapped", f, payload(t, "Ok")))
     b["value"] = err(payload(t, "Err"))
@@ -373,13 +382,13 @@ def m_bool_then(px, st, fr, ev):
     if is_const(t):
         if t[1]:
             if body is not None and body in px.facts.bodies:
-                return [{"inline": body, "args": [f], "wrap": some, "label": "true"}]
+                return [{"inline": body, "args": call_args(f, []), "wrap": some, "label": "true"}]
             return val(some(("call_closure", f)))
         return val(NONE)
     a = {"label": "true", "assume": (lambda c: c.set_known(t, 1))}
     b = {"label": "false", "assume": (lambda c: c.set_known(t, 0)), "value": NONE}
     if body is not None and body in px.facts.bodies:
-        a.update({"inline": body, "args": [f], "wrap": some})
+        a.update({"inline": body, "args": call_args(f, []), "wrap": some})
     else:
         a["value"] = some(("call_closure", f))
     return [a, b]
@@ -423,7 +432,7 @@ def m_poll_map(px, st, fr, ev):
          "value": agg("adt", "std::task::Poll", "Pending", ())}
     rdy = lambda v: agg("adt", "std::task::Poll", "Ready", (("0", v),))
     if body is not None and body in px.facts.bodies:
-        a.update({"inline": body, "args": [f, payload(t, "Ready")], "wrap": rdy})
+        a.update({"inline": body, "args": call_args(f, [payload(t, "Ready")]), "wrap": rdy})
     else:
         a["value"] = rdy(("mapped", f, payload(t, "Ready")))
     return [a, b]
